@@ -120,23 +120,24 @@ theorem C12_unknown_filter_refused (reg : Registry) (p : List UInt8) (i : UInt8)
 example : (7 : UInt8) ∈ [1, 7, 109] ∧ exReg 7 = none := by decide
 
 /-- ... in particular the raw frame reader never delivers a message from a frame whose pipe
-    bytes name an unregistered id (it fails at `Append`, before any payload is looked at). -/
-theorem C12_frame_unknown_filter_rejected (reg : Registry) (limit cap0 : Nat)
+    bytes name an unregistered id (it fails at `Append` — or earlier, when the ids do not fit into the
+    announced frame —, before any payload is looked at). -/
+theorem C12_frame_unknown_filter_rejected (reg : Registry) (limit : Nat)
     (a b c d xl : UInt8) (r : Bytes) (ids rest : Bytes)
     (hids : Raw.take? xl.toNat r = some (ids, rest)) (i : UInt8) (hi : i ∈ ids) (hr : reg i = none) :
-    ∀ m rest', (Raw.unpack reg limit cap0 (a :: b :: c :: d :: xl :: r)).out ≠ .ok m rest' := by
+    ∀ m rest', (Raw.unpack reg limit (a :: b :: c :: d :: xl :: r)).out ≠ .ok m rest' := by
   intro m rest'
   have happ : Xfer.append reg [] ids = none := (C12_unknown_filter_refused reg ids i hi hr).1 [] |>.1
-  have hx : ∀ size last cap alloc n,
-      (Raw.unpackXfer reg size last cap alloc n (xl :: r)).out ≠ .ok m rest' := by
-    intro size last cap alloc n
+  have hx : ∀ size last alloc n,
+      (Raw.unpackXfer reg size last alloc n (xl :: r)).out ≠ .ok m rest' := by
+    intro size last alloc n
     unfold Raw.unpackXfer
     simp only [hids, happ]
     split <;> simp
   unfold Raw.unpack
   dsimp only
   repeat' split
-  all_goals first | exact hx _ _ _ _ _ | simp
+  all_goals first | exact hx _ _ _ _ | simp
 
 example : Raw.take? (2 : UInt8).toNat [1, 7, 0, 0] = some ([1, 7], [0, 0]) ∧ (7 : UInt8) ∈ [1, 7] ∧ exReg 7 = none := by
   decide
@@ -201,12 +202,12 @@ example : ∀ x y, tableComp [([1, 2], [31, 139, 8])] x = some y →
 
 /-- The receiver learns the pipe from the frame itself: unpacking a packed frame (followed by any
     further bytes) delivers a message whose pipe is the sender's pipe. -/
-theorem C12_receiver_learns_pipe (reg : Registry) (limit cap0 : Nat) (m : Msg) (bs rest : Bytes)
+theorem C12_receiver_learns_pipe (reg : Registry) (limit : Nat) (m : Msg) (bs rest : Bytes)
     (sz : Nat) (hw : Raw.WF reg m) (hp : Raw.pack reg limit m = .ok (bs, sz))
     (hlt : bs.length < 4294967296) :
-    ∃ m', (Raw.unpack reg limit cap0 (bs ++ rest)).out = .ok m' rest ∧ m'.pipe = m.pipe ∧
+    ∃ m', (Raw.unpack reg limit (bs ++ rest)).out = .ok m' rest ∧ m'.pipe = m.pipe ∧
       m'.body = m.body := by
-  have := (Raw.unpack_pack reg limit cap0 m bs rest sz hw hp hlt).1
+  have := (Raw.unpack_pack reg limit m bs rest sz hw hp hlt).1
   exact ⟨{ m with size := sz }, by rw [this], rfl, rfl⟩
 
 /-- a message with md5 and repeated non-commuting filters in its pipe meets the hypotheses. -/
